@@ -1193,6 +1193,13 @@ func surviveCase(e *ev.Env, c *ev.Case, o appOpts, reqs []*rq, raw []byte, mutat
 		}
 		out = o2
 		e.StatMax("max_alloc_single_request", int64(d))
+		if d > limit && indexFold(out, "\r\ncontent-encoding:") >= 0 {
+			// the handler asked for a compressed response (SendFile with Compress): the
+			// compressor's working memory is a fixed cost of that helper, independent of the
+			// request (brotli: a few MiB per stream) - counted, and allowed for
+			e.Stat("response_compressed_over_plain_budget", 1)
+			limit += 8 << 20
+		}
 		if d > limit {
 			site := allocSite(e, c, mk, raw, limit, d)
 			e.Violation(c, "alloc|"+site, "one request of "+itoa(len(raw))+" bytes made the server allocate "+strconv.FormatUint(d, 10)+
